@@ -66,7 +66,7 @@ def tree_key(tier):
 
 
 # ------------------------------------------------------------------ one unit = one woven file
-TAG = re.compile(r"/\*\s*@(C\d+)\s+([^*]*?)\s*\*/")
+TAG = re.compile(r"/\*\s*@(C\d+(?:,C\d+)*)\s+([^*]*?)\s*\*/")
 
 
 def enclosing_fn(lines, ln):
@@ -137,7 +137,8 @@ def classify(diag, woven_path, lines):
             full = lines[ln - 1] if 0 < ln <= len(lines) else t
             m = TAG.search(full)
             if m:
-                out["property"], out["clause"] = m.group(1), m.group(2)
+                out["properties"] = m.group(1).split(",")
+                out["property"], out["clause"] = out["properties"][0], m.group(2)
             out["clause_text"] = full.strip()
         else:
             # a precondition inside vstd: Option::expect / unwrap / panic -> defensive assertion reachable
@@ -180,7 +181,8 @@ def run_unit(args):
     res["tags"] = sorted(set(decl.group(1).split())) if decl else sorted(set(m.group(1) for m in TAG.finditer(text)))
     res["tag_counts"] = {}
     for m in TAG.finditer(text):
-        res["tag_counts"][m.group(1)] = res["tag_counts"].get(m.group(1), 0) + 1
+        for pp in m.group(1).split(","):
+            res["tag_counts"][pp] = res["tag_counts"].get(pp, 0) + 1
     res["assumed"] = sorted(set(re.findall(r"#\[verifier::external_body\]\s*pub fn (\w+)", text))) + [f"assume@{i+1}" for i, l in enumerate(lines) if re.search(r"\b(assume|admit)\s*\(", l) and not l.strip().startswith("//")]
     def verus_once(path):
         cmd = ["verus", path, "--output-json", "--time", "--error-format=json", "--multiple-errors", "20"]
@@ -364,9 +366,9 @@ def get_results(tier):
 
 # ------------------------------------------------------------------ replay against the real crate
 REPLAY = os.path.join(BUILD, "replay-target", "release", "replay")
-SCENARIOS = {"take": ["take1", "take2"], "map": ["map"], "filter": ["filter"], "scan": ["scan"], "skip": ["skip1"], "from_iter": ["from_iter"],
-             "concat": ["concat2"], "concat0": ["concat0"], "flatten": ["flatten"], "merge": ["merge2", "merge3"], "mergeL": ["merge2L"],
-             "combine1": ["combine2"], "combine2": ["combine2"], "combine3": ["combine2"], "share": ["share2"]}
+SCENARIOS = {"take": ["take1", "take2", "take0"], "map": ["map"], "filter": ["filter"], "scan": ["scan"], "skip": ["skip1"], "from_iter": ["from_iter"],
+             "concat": ["concat2", "concat3"], "concat0": ["concat0"], "flatten": ["flatten"], "merge": ["merge2", "merge3"], "mergeL": ["merge2L"],
+             "combine1": ["combine2"], "combine2": ["combine2"], "combine3": ["combine2"], "share": ["share2", "share3"]}
 
 
 def build_replay():
@@ -430,19 +432,19 @@ def obligation_id(unit, e):
 def check_property(pid, tier, res):
     t0 = time.time()
     findings = load_findings()
-    relevant = [u for u in res["units"] if u["status"] == "undecided" or pid in u.get("tags", []) or any(e.get("property") == pid for e in u["errors"]) or pid in ("C17", "C20")]
+    relevant = [u for u in res["units"] if u["status"] == "undecided" or pid in u.get("tags", []) or any(pid in e.get("properties", [e.get("property")]) for e in u["errors"]) or pid in ("C17", "C20")]
     if pid == "C20":
         relevant = [u for u in relevant if u["cfg"] == "on" or u["status"] == "undecided"]
     undecided = [u for u in relevant if u["status"] == "undecided"]
-    if not [u for u in relevant if u["status"] != "undecided"]:
-        print(f"no unit carries obligations for {pid}", file=sys.stderr)
-        sys.exit(2)
     viol, known = [], []
     for u in relevant:
         for e in u["errors"]:
             if e["kind"] != "failed":
                 continue
             p = e.get("property")
+            if p is not None and pid in e.get("properties", [p]):
+                p = pid
+                e = dict(e, property=pid)
             if p is None:
                 # an untagged obligation that fails: attribute to every property (conservative), flagged
                 p = pid
@@ -483,7 +485,7 @@ def write_evidence(pid, tier, res, relevant, viol, known, wall):
         if u.get("woven") and os.path.exists(u["woven"]):
             for line in open(u["woven"]).read().split("\n"):
                 m = TAG.search(line)
-                if m and m.group(1) == pid and len(samples) < 12:
+                if m and pid in m.group(1).split(",") and len(samples) < 12:
                     samples.append({"unit": u["unit"], "clause": line.strip()[:300]})
     ev = {
         "property_id": pid, "tier": tier, "seed": int(os.environ.get("VERIF_SEED", "0") or 0), "level": "proof",
@@ -514,6 +516,23 @@ def main():
     if undecided:
         for u in undecided:
             print(f"UNDECIDED unit={u['unit']}: {u.get('why','')[:1500]}", file=sys.stderr)
+        # the verifier could not be brought to bear on this unit (the code left the supported subset or the
+        # contract's closure structure).  Bounded stand-in, labelled as such: exhaustive tape search against
+        # the real crate; a concrete failing history is reported, absence of one leaves the check undecided.
+        os.makedirs(os.path.join(EVID, "replay"), exist_ok=True)
+        hit = False
+        for t in sorted({u["template"] for u in undecided}):
+            cex = replay_search(t, a.property, secs=120)
+            if cex:
+                hit = True
+                path = os.path.join(EVID, "replay", f"{a.property}-{t}.bounded-search.json")
+                json.dump({"property": a.property, "obligation": f"{t}: bounded tape search (verifier undecided: {[u.get('why','')[:300] for u in undecided if u['template']==t][0]})",
+                           "level": "bounded exploration, not a proof", "failing_input": {"scenario": cex["scenario"], "tape": cex["tape"], "violations": cex["violations"], "history": cex["history"],
+                           "replay_cmd": f"{REPLAY} run {cex['scenario']} '{json.dumps(cex['tape'])}'"}}, open(path, "w"), indent=1)
+                print(f"VIOLATION property={a.property} replay={path}")
+        sys.exit(1 if hit else 2)
+    if not relevant:
+        print(f"no unit carries obligations for {a.property}", file=sys.stderr)
         sys.exit(2)
     write_evidence(a.property, a.tier, res, relevant, viol, known, time.time() - t0)
     if a.tier == "thorough" and known and build_replay():
